@@ -40,6 +40,8 @@ def run_cases(b, cases, workdir, fmt=b"%{uid}/%{euid}:%{cmdline}"):
         s.path(ctx.helper).argv([b"prog", b"x"]).envp([b"A=1"]).add("ret", -1, 2).add("snap", 0)
         for label, chain, ruid, euid, tty in batches[i]:
             ini = b'[snoopy]\nmessage_format = "' + fmt + b'"\noutput = file:' + ctx.log + b'\nfilter_chain = "' + chain + b'"\n'
+            if sum(label.encode()) % 2:
+                ini += b"error_logging = yes\n"        # a dropped call stays silent with error logging on, too
             s.add("emit", "item:" + label).add("fork")
             s.add("stdin", "pty" if tty else "null").add("ini", drv.hx(ini))
             if ruid is not None:
